@@ -43,6 +43,9 @@ Section ExecList.
     destruct c; [apply IHs2|reflexivity].
   Qed.
 
+  Lemma exec_list_nil : forall st, exec_list [] st = Ok CNormal st.
+  Proof. reflexivity. Qed.
+
   Lemma exec_list_cons_ok : forall s r st st1,
     exec ext s st = Ok CNormal st1 -> exec_list (s :: r) st = exec_list r st1.
   Proof. intros. cbn [exec_list]. now rewrite H. Qed.
@@ -221,4 +224,112 @@ Section Ext.
   Proof.
     ext_eq. unfold view. cbn [tdata]. rewrite H, Nat.eqb_refl. reflexivity.
   Qed.
+
+  (* ---- binomial_coefficient ------------------------------------------------------------------------------------ *)
+  Lemma dec_int : forall c, dec (VInt c) = None.
+  Proof. reflexivity. Qed.
+
+  Lemma dec_pair_key : forall r s, dec (VTuple [VInt r; s]) = None.
+  Proof. reflexivity. Qed.
+
+  Lemma dec_ell_key : forall c, dec (VTuple [ellipsis_v; VInt c]) = None.
+  Proof. reflexivity. Qed.
+
+  Lemma E_lt_s : forall sh a c st,
+    ext "compare" [VStr "lt"; tv sh a; VInt c] [] st = Ok (tv sh (map (fun v => qbool (q_lt v (inject_Z c))) a)) st.
+  Proof. ext_eq. unfold ext_compare. rewrite dec_tv, dec_int. reflexivity. Qed.
+
+  Lemma E_eq_s : forall sh a c st,
+    ext "compare" [VStr "eq"; tv sh a; VInt c] [] st = Ok (tv sh (map (fun v => qbool (Qeq_bool v (inject_Z c))) a)) st.
+  Proof. ext_eq. unfold ext_compare. rewrite dec_tv, dec_int. reflexivity. Qed.
+
+  Lemma E_or : forall sh a b st,
+    ext "operator" [VStr "or"; tv sh a; tv sh b] [] st = Ok (tv sh (map2 (fun x y => qbool (qtrue x || qtrue y)) a b)) st.
+  Proof. ext_eq. unfold ext_operator. rewrite !dec_tv. cbn. unfold or_t. cbn. now rewrite shape_eqb_refl. Qed.
+
+  Lemma E_empty2 : forall a b st, (0 <= a)%Z -> (0 <= b)%Z ->
+    ext "torch.empty" [VTuple [VInt a; VInt b]] [("device", device_token); ("dtype", long_token)] st =
+    Ok (tv [Z.to_nat a; Z.to_nat b] (map junk (seq 0 (numel [Z.to_nat a; Z.to_nat b])))) st.
+  Proof.
+    intros. unfold ext19. cbn. unfold dec_size. cbn.
+    replace (0 <=? a)%Z with true by (symmetry; now apply Z.leb_le).
+    replace (0 <=? b)%Z with true by (symmetry; now apply Z.leb_le). reflexivity.
+  Qed.
+
+  Lemma E_setcol0 : forall n m D c st,
+    ext "$setitem" [tv [n; S m] D; VTuple [ellipsis_v; VInt 0]; VInt c] [] st =
+    Ok (tv [n; S m] (flat_map (fun r => inject_Z c :: tl r) (rows_of n (S m) D))) st.
+  Proof. ext_eq. unfold ext_setitem. rewrite dec_tv. reflexivity. Qed.
+
+  Lemma E_setrow_s : forall n sh D t c st, (0 <= t < Z.of_nat n)%Z ->
+    ext "$setitem" [tv (n :: sh) D; VInt t; VInt c] [] st =
+    Ok (tv (n :: sh) (firstn (Z.to_nat t * numel sh) D ++ repeat (inject_Z c) (numel sh) ++ skipn (S (Z.to_nat t) * numel sh) D)) st.
+  Proof.
+    ext_eq. unfold ext_setitem. rewrite dec_tv, dec_int. cbn. unfold set_row_s. cbn [tshape tdata].
+    replace (0 <=? t)%Z with true by (symmetry; apply Z.leb_le; lia).
+    replace (t <? Z.of_nat n)%Z with true by (symmetry; apply Z.ltb_lt; lia). reflexivity.
+  Qed.
+
+  Lemma E_getrow : forall n m D r st, (0 <= r < Z.of_nat n)%Z ->
+    ext "$getitem" [tv [n; S m] D; VTuple [VInt r; slice_v VNone (VInt (-1)) VNone]] [] st =
+    Ok (tv [m] (firstn m (skipn (Z.to_nat r * S m) D))) st.
+  Proof.
+    ext_eq. unfold ext_getitem. rewrite dec_tv, dec_pair_key. cbn. unfold row_but_last. cbn [tshape tdata].
+    replace (0 <=? r)%Z with true by (symmetry; apply Z.leb_le; lia).
+    replace (r <? Z.of_nat n)%Z with true by (symmetry; apply Z.ltb_lt; lia). reflexivity.
+  Qed.
+
+  Lemma E_cumsum : forall m d st, ext "$method.cumsum" [tv [m] d; VInt 0] [] st = Ok (tv [m] (cumsum_from 0 d)) st.
+  Proof. ext_eq. reflexivity. Qed.
+
+  Lemma E_cumprod : forall m d st, ext "$method.cumprod" [tv [m] d; VInt 0] [] st = Ok (tv [m] (cumprod_from 1 d)) st.
+  Proof. ext_eq. reflexivity. Qed.
+
+  Lemma E_setrow_from1 : forall n m D r v st, (0 <= r < Z.of_nat n)%Z ->
+    ext "$setitem" [tv [n; S m] D; VTuple [VInt r; slice_v (VInt 1) VNone VNone]; tv [m] v] [] st =
+    Ok (tv [n; S m] (firstn (Z.to_nat r * S m + 1) D ++ v ++ skipn (S (Z.to_nat r) * S m) D)) st.
+  Proof.
+    ext_eq. unfold ext_setitem. rewrite !dec_tv. cbn. unfold set_row_from1. cbn [tshape tdata].
+    replace (0 <=? r)%Z with true by (symmetry; apply Z.leb_le; lia).
+    replace (r <? Z.of_nat n)%Z with true by (symmetry; apply Z.ltb_lt; lia). rewrite Nat.eqb_refl. reflexivity.
+  Qed.
+
+  Lemma E_flatten : forall sh D st, ext "$method.flatten" [tv sh D] [] st = Ok (tv [List.length D] D) st.
+  Proof. ext_eq. reflexivity. Qed.
+
+  Lemma E_mul_ts : forall sh a c st,
+    ext "operator" [VStr "mul"; tv sh a; VInt c] [] st = Ok (tv sh (map (fun v => Qred (v * inject_Z c)) a)) st.
+  Proof. ext_eq. unfold ext_operator. rewrite dec_tv, dec_int. reflexivity. Qed.
+
+  Lemma E_add_tt : forall sh a b st,
+    ext "operator" [VStr "add"; tv sh a; tv sh b] [] st = Ok (tv sh (map2 (fun x y => Qred (x + y)) a b)) st.
+  Proof. ext_eq. unfold ext_operator. rewrite !dec_tv. cbn. unfold zip2. cbn. now rewrite shape_eqb_refl. Qed.
+
+  Lemma E_mul_tt : forall sh a b st,
+    ext "operator" [VStr "mul"; tv sh a; tv sh b] [] st = Ok (tv sh (map2 (fun x y => Qred (x * y)) a b)) st.
+  Proof. ext_eq. unfold ext_operator. rewrite !dec_tv. cbn. unfold zip2. cbn. now rewrite shape_eqb_refl. Qed.
+
+  Lemma E_gather : forall n X sh I G st, gather (mkTens [n] X) (mkTens sh I) = Some (mkTens sh G) ->
+    ext "$getitem" [tv [n] X; tv sh I] [] st = Ok (tv sh G) st.
+  Proof. ext_eq. unfold ext_getitem. rewrite !dec_tv. cbv beta iota. now rewrite H. Qed.
+
+  Lemma E_clamp_max : forall sh d c st,
+    ext "$method.clamp_max" [tv sh d; VInt c] [] st = Ok (tv sh (map (qmin (inject_Z c)) d)) st.
+  Proof. ext_eq. reflexivity. Qed.
+
+  Lemma E_arange_dev : forall n st, (0 <= n)%Z ->
+    ext "torch.arange" [VInt n] [("device", device_token)] st =
+    Ok (tv [Z.to_nat n] (map (fun i => inject_Z (Z.of_nat i)) (seq 0 (Z.to_nat n)))) st.
+  Proof.
+    intros. unfold ext19. cbn. unfold arange. replace (n <? 0)%Z with false by (symmetry; apply Z.ltb_ge; lia). reflexivity.
+  Qed.
+
+  Lemma E_trunc : forall sh a b c st, trunc_div (mkTens sh a) (mkTens sh b) = Some (mkTens sh c) ->
+    ext "trunc_divide" [tv sh a; tv sh b] [] st = Ok (tv sh c) st.
+  Proof. ext_eq. unfold on_tens2. rewrite !dec_tv. cbv beta iota. now rewrite H. Qed.
+
+  Lemma E_masked_fill : forall sh x m c st,
+    ext "$method!.masked_fill_" [tv sh x; tv sh m; VInt c] [] st =
+    Ok (tv sh (map2 (fun v mk => if qtrue mk then inject_Z c else v) x m)) st.
+  Proof. ext_eq. unfold masked_fill. cbn. now rewrite shape_eqb_refl. Qed.
 End Ext.
